@@ -47,7 +47,7 @@ func init() {
 	cfgs["C16"] = checkCfg{
 		Variant: "sched", Validate: false,
 		Budget: dur(170, 1700),
-		Rule:   "all histories of host invocations (SpawnSync by name with arguments) of length <= 2 (quick) / <= 3 (thorough) over an 11-call alphabet on ONE live VM (argument order, persistent globals, return from loop+try, uncaught throw, recursion, object result, caught throw), each under all schedules within a delay bound (quick 2, thorough 3; inspected variant 1/2), plus histories one call longer at delay bound 1; oracle: per-call results equal the reference evaluator run on the same history, no residue (cores, locks, frames, handlers, operand stack, memory pointer, unfinished threads) after a completed call, failure instead of blocking after a failed call; deadlock/livelock are terminal scheduler states; states = executions, transitions = scheduling choice points",
+		Rule:   "all histories of host invocations (SpawnSync by name with arguments, the host re-using its argument slices) of length <= 2 over a 13-call alphabet on ONE live VM (argument order, persistent globals, return from loop+try, uncaught throw, recursion, object result, caught throw), each under all schedules within a delay bound (quick 2, thorough 3; inspected variant 1/2), plus all histories of length 3 at delay bound 1 (thorough 2) and, thorough only, all histories of length 4 on the default schedule; oracle: per-call results equal the reference evaluator run on the same history, no residue (cores, locks, frames, handlers, operand stack, memory pointer, unfinished threads) after a completed call, failure instead of blocking after a failed call; deadlock/livelock are terminal scheduler states; states = executions, transitions = scheduling choice points",
 		Assume: schedExploreAssume,
 	}
 }
